@@ -15,6 +15,19 @@ class Item(object):
         return self.serial
 
 
+class EqItem(Item):
+    """value equality: every EqItem equals (and hashes like) every other one; the registry goes by identity all the same"""
+
+    def __eq__(self, other):
+        return type(other) is EqItem
+
+    def __ne__(self, other):
+        return not self.__eq__(other)
+
+    def __hash__(self):
+        return 1234567
+
+
 class Other(object):
     """falsy (an empty container): its truth value must make no difference to the registry"""
 
